@@ -126,7 +126,8 @@ CHECKS = {
     "C10": {
         "text": "Coq theorem (Props/C10.v): for every history whose chunk size stays <= C and whose window (look-ahead for one item) "
                 "stays <= W, the reader's buffer never exceeds 3C + W bytes, independent of the number of bytes consumed (induction over "
-                "histories, using the realign threshold). The link to real heap use is measured: cnf and btor2 inputs generated on the "
+                "histories, using the realign threshold); the look-ahead window of a DIMACS next_clause call is bounded by the item it "
+                "consumes (view level; its link to valid_len during the call is not a theorem). The link to real heap use is measured: cnf and btor2 inputs generated on the "
                 "fly are streamed under a counting allocator and the peak live heap is compared with 8*chunk + 16*item + 64 KiB.",
         "design_ref": "DESIGN.md 2/C10",
         "note": "Trusted: as C02. Partial: Vec growth policy, shrink_to_fit and allocator overhead are runtime behaviour (measured); the "
@@ -152,8 +153,14 @@ CHECKS = {
         "text": "Coq theorems (Props/C09.v): for every reachable reader state a refill adds exactly one successful read() call (after the "
                 "Interrupted ones), none when complete or when BufReader leftovers remain; no operation calls the source after its "
                 "terminal event; a satisfied request/peek leaves the reader untouched; the newline and next_newline scanners ask for "
-                "no offset beyond the line break (minimal look-ahead, by induction on the input). PARTIAL: per-item look-ahead of the "
-                "whole parsers is checked by the one-line-per-read oracle on all formats and by comparing read-call counts with the model.",
+                "no offset beyond the line break (minimal look-ahead, by induction on the input). Per item, for the DIMACS family "
+                "(Look.v/LookProofs.v, every admissible run of Parser::new and next_clause from every invariant state): when an item is "
+                "returned the cursor sits just behind its line break and nothing beyond the cursor was requested (or the input ended "
+                "and only the request that found the end went beyond); and at the concrete reader: over a source that hands out a "
+                "line per read, everything delivered has been consumed when the item is returned (no read after the one that "
+                "delivered the item's last line), for every chunk size; for any honest source a call whose requests were already "
+                "delivered does not touch the source. PARTIAL: AIGER/BTOR2 per-item look-ahead by the one-line-per-read oracle and "
+                "read-call counts against the model.",
         "design_ref": "DESIGN.md 2/C09",
         "note": "Trusted: as C02/C16.",
         "technique": "Coq proof (call-count invariant over histories; minimal look-ahead of scanners) + model/implementation "
@@ -181,7 +188,10 @@ CHECKS = {
                 "every state satisfying the parsers' invariant: number tokens return Ok z only for the exact decimal value within "
                 "the type; var_count, clause_group, the clause-literal and value-line loops return Ok only within the limit in force. "
                 "PARTIAL: clause-count / clean-end gating and AIGER limits are validated by the limits oracle (every limit at "
-                "-1/0/+1, all formats) and the pa stream.",
+                "-1/0/+1, all formats) and the pa stream — for the DIMACS family and solver logs these are now end-to-end theorems too "
+                "(CnfLimits.v): for every item ever handed out, literals non-zero and within the declared variable count (or the "
+                "type limit when 0 / no header / ignore_header), groups within the declared group count, weights within u64, at most the "
+                "declared number of clauses, and the clean end only with exactly that number.",
         "design_ref": "DESIGN.md 2/C06",
         "note": "Trusted: as C13; translator for MAX_DIMACS / MAX_CODE.",
         "technique": "Coq proof (exactness of scanners for all admissible runs) + translator-generated constants + limit oracle",
